@@ -1,0 +1,57 @@
+//go:build verif
+
+package proxy
+
+// Verification export hooks for property C13 (login plugin messages) — /verif/harness/cmd/c13.
+// Add-only, no logic: a loginInboundConn over the caller's (recording) client connection, a Modern
+// Forge login relay on top of it, and forwarders to the unexported entry points.
+// Compiled only with `-tags verif`.
+
+import (
+	"github.com/go-logr/logr"
+
+	"go.minekube.com/gate/pkg/edition/java/netmc"
+	"go.minekube.com/gate/pkg/edition/java/proto/packet"
+	"go.minekube.com/gate/pkg/gate/proto"
+)
+
+// VerifC13Env is one loginInboundConn (as newLoginInboundConn makes it in the handshake handler)
+// and a modernForgeLoginRelay bound to it.
+type VerifC13Env struct {
+	l     *loginInboundConn
+	relay *modernForgeLoginRelay
+}
+
+func VerifC13New(client netmc.MinecraftConn) *VerifC13Env {
+	l := newLoginInboundConn(newInitialInbound(client, nil, packet.LoginHandshakeIntent))
+	return &VerifC13Env{l: l, relay: newModernForgeLoginRelay(l, nil, nil)}
+}
+
+// Conn is what event handlers get from PreLoginEvent.Conn(): SendLoginPluginMessage lives there.
+func (e *VerifC13Env) Conn() LoginPhaseConnection { return e.l }
+
+// Response delivers a client LoginPluginResponse: via 0 = handleLoginPluginResponse,
+// 1 = initialLoginSessionHandler.HandlePacket, 2 = authSessionHandler.HandlePacket.
+func (e *VerifC13Env) Response(p *packet.LoginPluginResponse, via int) {
+	switch via {
+	case 1:
+		(&initialLoginSessionHandler{inbound: e.l, log: logr.Discard()}).HandlePacket(&proto.PacketContext{Packet: p})
+	case 2:
+		(&authSessionHandler{inbound: e.l, log: logr.Discard()}).HandlePacket(&proto.PacketContext{Packet: p})
+	default:
+		_ = e.l.handleLoginPluginResponse(p)
+	}
+}
+
+// Fire = loginEventFired.
+func (e *VerifC13Env) Fire(onAllMessagesHandled func() error) error {
+	return e.l.loginEventFired(onAllMessagesHandled)
+}
+
+// Clear = clearOnAllMessagesHandled.
+func (e *VerifC13Env) Clear() { e.l.clearOnAllMessagesHandled() }
+
+// Relay = modernForgeLoginRelay.relayToClient.
+func (e *VerifC13Env) Relay(backend netmc.MinecraftConn, msg *packet.LoginPluginMessage) error {
+	return e.relay.relayToClient(backend, msg)
+}
